@@ -74,6 +74,13 @@ class PROP(Prop):
             for call in [n for n in ast.walk(fn) if isinstance(n, ast.Call) and isinstance(n.func, ast.Name) and n.func.id == "sendexec"]:
                 lines, ships_base = [], False
                 for arg in call.args[1:]:
+                    # what fills the holes: the worker is configured from the SPEC it was asked for (its execution model, its id), the same in both bootstrap paths
+                    if isinstance(arg, ast.BinOp) and isinstance(arg.op, ast.Mod) and isinstance(arg.left, ast.Constant) and isinstance(arg.left.value, str):
+                        tmpl, filler = arg.left.value, ast.unparse(arg.right)
+                        want = {"execmodel = get_execmodel(%r)": ("spec.execmodel",), "serve(init_popen_io(execmodel), id='%s-worker')": ("spec.id",),
+                                "serve(io, id='%s-worker')": ("spec.id", "id"), "if %r not in sys.path:": ("importdir",), "    sys.path.insert(0, %r)": ("importdir",)}.get(tmpl)
+                        if want is not None:
+                            out.append((f"static/{fname}/hole-filled-from-the-spec:{tmpl.strip()}", filler in want, f"`{tmpl}` % {filler} (expected one of {want})"))
                     lit = _literal(arg)
                     if lit is not None:
                         lines.append(lit)
